@@ -705,6 +705,99 @@ def field_writes(body, field, owner_suffix=None, include_mut_borrows=False):
     return out
 
 
+def bool_set_events(body, field, owner_suffix=None):
+    """The ways a bool field is switched ON without ever being switched off, in one normal form: [(block, statement, slice of the condition)]
+    for `x.f |= cond` (the field OR-ed with cond) and for `if cond { x.f = true }` (the condition of the innermost switch whose true side
+    dominates the write). Other writes of the field are returned with condition None."""
+    out = []
+    for bi, s in field_writes(body, field, owner_suffix):
+        rv = s['rv']
+        if rv['k'] == 'bin' and rv.get('op') == 'BitOr':
+            a, b_ = direct_field(body, rv['a']), direct_field(body, rv['b'])
+            if a is not None and a[0] == field and not a[2]:
+                out.append((bi, s, backslice(body, [rv['b']])))
+                continue
+            if b_ is not None and b_[0] == field and not b_[2]:
+                out.append((bi, s, backslice(body, [rv['a']])))
+                continue
+        if rv['k'] == 'use' and const_bool(rv['op']) is True:
+            cond = None
+            for d in sorted(body.dominators()[bi], key=lambda x: len(body.dominators()[x]), reverse=True):
+                t = body.blocks[d]['term']
+                if t['k'] != 'switch' or d == bi:
+                    continue
+                tt, ft = switch_targets_bool(t)
+                if tt is not None and body.dominates(tt, bi) and not body.dominates(ft, bi):
+                    sl = backslice(body, [t['op']])
+                    if count_nots(body, sl) % 2 == 0:
+                        cond = sl
+                    break
+            out.append((bi, s, cond))
+            continue
+        out.append((bi, s, None))
+    return out
+
+
+def option_default_events(unit, body, field, owner_suffix=None):
+    """The ways an Option field gets a default only when it is None, in one normal form: [(block, slice of the default value, how)] for
+    `if x.f.is_none() { x.f = Some(v) }`, `x.f.get_or_insert(v)` and `x.f.get_or_insert_with(|| v)`; any other write is returned with how = 'other'."""
+    out = []
+
+    def is_field(op):
+        dd = direct_def(body, op)
+        pl = dd[1] if dd[0] == 'place' else None
+        if pl is None and dd[0] == 'ref':
+            return False
+        if pl is None:
+            return False
+        fs = [e for e in pl[1] if isinstance(e, list) and e[0] == 'F']
+        return bool(fs) and fs[-1][2] == field and (owner_suffix is None or (len(fs[-1]) > 3 and fs[-1][3].endswith(owner_suffix)))
+    for c in body.calls(r'Option::<T>::get_or_insert(_with)?$|Option<.*>::get_or_insert(_with)?$'):
+        a0 = c.args[0]
+        ok = is_field(a0)
+        if not ok:
+            # `&mut x.f` taken in a statement
+            l0 = op_local(a0)
+            for d_ in body.defs().get(l0, []):
+                if d_[2] == 'assign' and d_[3]['rv']['k'] == 'ref':
+                    fs = [e for e in d_[3]['rv']['p'][1] if isinstance(e, list) and e[0] == 'F']
+                    ok = ok or (bool(fs) and fs[-1][2] == field and (owner_suffix is None or (len(fs[-1]) > 3 and fs[-1][3].endswith(owner_suffix))))
+        if not ok:
+            continue
+        vsl = backslice(body, [c.args[1]])
+        if c.path.endswith('_with'):
+            calls_ = closure_calls(unit, body, vsl)
+            vsl.calls = list(vsl.calls) + calls_
+        out.append((c.bb, vsl, 'get_or_insert'))
+    for bi, s in field_writes(body, field, owner_suffix):
+        rv = s['rv']
+        vsl = backslice(body, rvalue_operands(rv))
+        is_some = (rv['k'] == 'agg' and rv.get('variant') == 'Some') or any(st['rv'].get('variant') == 'Some' for blk in body.blocks for st in blk['stmts'] if st['p'][0] in vsl.locals and st['rv']['k'] == 'agg')
+        guard = False
+        for d in body.dominators()[bi]:
+            t = body.blocks[d]['term']
+            if t['k'] != 'switch' or d == bi:
+                continue
+            kind, name = None, None
+            dd = direct_def(body, t['op'])
+            if dd[0] == 'call' and dd[1].matches(r'Option(::)?<.*>::(is_none|is_some)$') and dd[1].args:
+                base = direct_def(body, dd[1].args[0])
+                pl = base[1] if base[0] == 'place' else None
+                fs = [e for e in (pl[1] if pl else []) if isinstance(e, list) and e[0] == 'F']
+                if fs and fs[-1][2] == field:
+                    tt, ft = switch_targets_bool(t)
+                    none_side = tt if dd[1].path.endswith('is_none') else ft
+                    guard = guard or body.dominates(none_side, bi)
+            elif dd[0] == 'stmt' and dd[1]['rv']['k'] == 'disc':
+                fs = [e for e in dd[1]['rv']['p'][1] if isinstance(e, list) and e[0] == 'F']
+                if fs and fs[-1][2] == field:
+                    m = dict(zip(t['vals'], t['tgts']))
+                    none_side = m.get(0, t['tgts'][-1])
+                    guard = guard or body.dominates(none_side, bi)
+        out.append((bi, vsl, 'guarded-some' if (is_some and guard) else 'other'))
+    return out
+
+
 def aggregates(body, adt_suffix, variant=None):
     """(bb, stmt) of aggregate constructions of an ADT"""
     out = []
